@@ -69,5 +69,15 @@ def run(ctx):
             cfg = {'q': 'kf', 'elem': rng.choice(['ptr', 'uptr']), 'k': str(k)}
             jobs += std_search_jobs(rng, cfg, ctx['seed'], n, thorough, lambda: queue_program(rng, 2 + rng.randint(0, 1), 3))
             jobs.append((cfg, [queue_program(rng, 1, 4 * k + 8)[0]], 'opseq', 3, ctx['seed'], ()))
+        if name == 'uq_hp':
+            # long enough to wrap the ring while pushers and poppers are delayed inside their operations (3-4 segments, k = 2):
+            # the wrap-around cases of in_valid_region / not_in_valid_region
+            for segs in (3, 4):
+                cfgw = {'q': 'kfb', 'elem': 'ptr', 'k': '2', 'segs': str(segs)}
+                for i in range(3 if thorough else 2):
+                    prog = [['push %d' % v for v in range(1, 7)] + ['pop', 'pop'], ['pop'] * 5 + ['push 7', 'pop'], ['push 8', 'push 9', 'pop']]
+                    if i: prog = queue_program(rng, 3, 7, pushy=0.55)
+                    jobs.append((cfgw, prog, 'pct', 4 * n, ctx['seed'] + i, ('--depth', '3')))
+                    jobs.append((cfgw, prog, 'random', 2 * n, ctx['seed'] + i, ()))
         do_search(ctx, H, jobs, name, classify=classify_for(name))
     return None
